@@ -702,6 +702,7 @@ sock_shutdown(nni_sock *sock, bool device)
 	}
 
 	nni_mtx_unlock(&sock->s_mx);
+	NNI_VERIF_PT(NNI_VP_SOCK_SHUTDOWN_EPS);
 
 	// Close the upper queues immediately.
 	nni_msgq_close(sock->s_urq);
@@ -734,6 +735,7 @@ sock_shutdown(nni_sock *sock, bool device)
 	}
 	nni_mtx_unlock(&sock_lk);
 
+	NNI_VERIF_PT(NNI_VP_SOCK_CLOSE_BEFORE_WAIT);
 	nni_mtx_lock(&sock->s_mx);
 	// We have to wait for pipes to be removed.
 	while (!nni_list_empty(&sock->s_pipes)) {
@@ -1636,6 +1638,7 @@ nni_pipe_run_cb(nni_pipe *p, nng_pipe_ev ev)
 	bool           wantevs;
 	static nni_mtx serialize = NNI_MTX_INITIALIZER;
 
+	NNI_VERIF_PT(NNI_VP_PIPE_RUN_CB);
 	nni_mtx_lock(&s->s_pipe_cbs_mtx);
 	cb      = s->s_pipe_cbs[ev].cb_fn;
 	arg     = s->s_pipe_cbs[ev].cb_arg;
